@@ -52,6 +52,10 @@ type Prop struct {
 	// with an unrecoverable runtime error, e.g. "concurrent map read and map write"); the answer of
 	// a dead subprocess is `crash`.
 	Isolate bool
+	// Timed: the answer depends on wall-clock waits (read timeouts, quiet periods). A case whose
+	// answer fails the oracle or differs from the model is run again alone (twice at most) before it
+	// counts: under load a wait can be misjudged; a deterministic violation fails again.
+	Timed       bool
 	Assumptions []string
 }
 
@@ -383,6 +387,21 @@ func runProp(cfg runConfig) int {
 	agree := p.Agree
 	if agree == nil {
 		agree = func(m, i string) bool { return m == i }
+	}
+	retimed := 0
+	if p.Timed {
+		for i, c := range cases {
+			bad := func() bool {
+				return (hasModel[i] && !agree(modelOut[i], implOut[i])) || (p.Oracle != nil && p.Oracle(c.Line, implOut[i]) != "")
+			}
+			for try := 0; try < 2 && bad(); try++ {
+				implOut[i] = safeImpl(p, c.Line)
+				retimed++
+			}
+		}
+		if retimed > 0 {
+			fmt.Fprintf(os.Stderr, "%s: %d re-runs of timing-dependent answers\n", p.ID, retimed)
+		}
 	}
 	type fail struct {
 		idx    int
